@@ -11,6 +11,8 @@
   gc_recurse_returns, gc_mark_item_returns : nat   number of `return` statements in GC_Recurse (2: leaf type, after the
                            Mark instance) and GC_Mark_Item (3: prefilter, end of the probe sequence, after tracing): no other
                            early exit such as a nesting-depth cap (seeded defect C01-r5-2)
+  gc_next_mitems : N -> N   the threshold policy read off `gc->mitems = <expr in gc->nitems>;` in GC_Sweep and GC_Rem
+                           (tuning: the theorems hold for every policy)
   gc_leaf_types   : list string   types GC_Recurse returns on at once
   gc_mark_shape_ok : bool  the functions the model transcribes (GC_Mark_Item, GC_Recurse, GC_Mark's
                            three passes, GC_Mark_Stack, the Mark instances of Array List Table Tree
@@ -68,6 +70,31 @@ MAR_OLD = '{struct GC*gc=_gc;GC_Mark_Item(gc,ptr);GC_Recurse(gc,ptr);}'
 MAR_NEW = '{struct GC*gc=_gc;if(GC_Mem_Ptr(gc,ptr)){GC_Mark_Item(gc,ptr);return;}GC_Recurse(gc,ptr);}'
 
 
+def inline_helpers(text, gc, func_body):
+    """equivalent code shapes recognised as the same model (one level of helper inlining on the normalised text):
+    GC_Next(gc, X) -> (X+1)%gc->nslots when the helper GC_Next is the increment-and-wrap successor
+    `i++; return i == gc->nslots ? 0 : i;` (or `return (i+1) % gc->nslots;`).  Justification: the probe index always
+    satisfies 0 <= i < nslots (it starts as hash % nslots and is advanced only by this step), and on that domain both
+    denote the successor modulo nslots."""
+    hb = norm(func_body(gc, r'static\s+uint64_t\s+GC_Next\s*\(\s*struct\s+GC\*\s*gc\s*,\s*uint64_t\s+i\s*\)\s*\{'))
+    if hb in ('{i++;returni==gc->nslots?0:i;}', '{return(i+1)%gc->nslots;}', '{i++;return(i==gc->nslots)?0:i;}'):
+        text = re.sub(r'GC_Next\(gc,(\w+)\)', r'(\1+1)%gc->nslots', text)
+    return text
+
+
+def small_expr(text, var):
+    """a C expression over `var`, decimal literals, + * / and parentheses as a Coq N expression in n (None otherwise)"""
+    t = norm(text).replace(var, 'n')
+    if not t or not re.fullmatch(r'[n0-9+*/()]+', t) or '//' in t or '**' in t:
+        return None
+    depth = 0
+    for ch in t:
+        depth += ch == '('; depth -= ch == ')'
+        if depth < 0: return None
+    if depth: return None
+    return re.sub(r'([+*/])', r' \1 ', t)
+
+
 def generate(repo, emit, src, func_body):
     gc = src('src/GC.c')
     # --- TLS callback
@@ -113,6 +140,8 @@ def generate(repo, emit, src, func_body):
     for (file, hdr), want in EXPECT.items():
         body = func_body(src(file), hdr)
         got = norm(body)
+        if file == 'src/GC.c':
+            got = inline_helpers(got, gc, func_body)
         w = want
         if 'LEAFTEST' in w:
             w = w.replace('LEAFTEST', norm(leaf_text) if leaf_text else '?')
@@ -133,7 +162,6 @@ def generate(repo, emit, src, func_body):
                     'gc->minptr = (uintptr_t)key < gc->minptr ? (uintptr_t)key : gc->minptr;'
                     'GC_Resize_More(gc); GC_Set_Ptr(gc, key, (bool)c_int(val));'
                     'if (gc->nitems > gc->mitems) { GC_Mark(gc); GC_Sweep(gc); }}')
-    rule = 'gc->mitems=gc->nitems+gc->nitems/2+1;'
     sweepb = norm(func_body(gc, r'void\s+GC_Sweep\s*\(\s*struct\s+GC\*\s*gc\s*\)\s*\{'))
     remb = norm(func_body(gc, r'static\s+void\s+GC_Rem\s*\(\s*var\s+self\s*,\s*var\s+key\s*\)\s*\{'))
     # repaired form (fix b4ae34a): no collection is started while a sweep is running (destructor that allocates)
@@ -144,8 +172,18 @@ def generate(repo, emit, src, func_body):
                  'gc->minptr = (uintptr_t)key < gc->minptr ? (uintptr_t)key : gc->minptr;')
     guard = norm('if (gc->freelist isnt NULL) { return; }')
     want_set3 = want_set2.replace(widen, '', 1).replace(guard, guard + widen, 1)
-    if setb in (want_set, want_set2, want_set3) and rule in sweepb and rule in remb:
-        emit('gc_threshold_shape_ok', 'Definition gc_threshold_shape_ok : bool := true.   (* GC_Set trigger nitems > mitems; mitems = n + n/2 + 1 *)')
+    # the threshold POLICY (what mitems is set to after a sweep / a removal) is tuning: it decides when a collection runs,
+    # not what it does.  It is read as a small expression in gc->nitems and handed to the model as a parameter; the
+    # theorems hold for every policy.  The two sites must agree (the model has one policy).
+    r1 = re.findall(r'gc->mitems=([^;]+);', sweepb)
+    r2 = re.findall(r'gc->mitems=([^;]+);', remb)
+    pol = small_expr(r1[0], 'gc->nitems') if len(r1) == 1 and len(r2) == 1 and r1[0] == r2[0] else None
+    if pol:
+        emit('gc_next_mitems', 'Definition gc_next_mitems (n : N) : N := (%s)%%N.   (* source: gc->mitems = %s *)' % (pol, r1[0]))
+    else:
+        emit('gc_next_mitems', None)
+    if setb in (want_set, want_set2, want_set3) and pol:
+        emit('gc_threshold_shape_ok', 'Definition gc_threshold_shape_ok : bool := true.   (* GC_Set: register, then trigger on nitems > mitems *)')
     else:
         emit('gc_threshold_shape_ok', None)
     if setb in (want_set, want_set2):
